@@ -667,7 +667,14 @@ fn do_merge(ctx: &mut Ctx, st: &mut SeqState, scn: &StoreScn, or: &Oracles, i: u
             })
             .collect()
     });
-    let all_eligible = nonempty_before.iter().all(|id| unlinked.contains(id));
+    let all_unlinked = nonempty_before.iter().all(|id| unlinked.contains(id));
+    // every non-empty data file is eligible when the thresholds say so, whatever the pass then
+    // did: a small-file threshold of u64::MAX selects every file that holds an entry
+    let eligible_by_config = st.store.as_ref().map(|s| s.cfg.thr_small == u64::MAX).unwrap_or(false);
+    let all_eligible = all_unlinked || eligible_by_config;
+    if eligible_by_config && !all_unlinked {
+        ctx.sim.probe("all_eligible_by_thresholds_but_not_all_removed");
+    }
     let none = unlinked.iter().all(|id| !nonempty_before.contains(id));
     if all_eligible && !nonempty_before.is_empty() {
         ctx.sim.probe("merge_selected_all_nonempty");
